@@ -34,11 +34,14 @@ class Obj:
 def constants():
     txt = open(os.path.join(core.REPO, 'tools/include/votca/tools/constants.h')).read()
     out = {}
-    for nm in ('nm2ang', 'ang2nm'):
+    for nm in ('nm2ang', 'ang2nm', 'kcal2kj'):
         m = re.search(r'const\s+double\s+%s\s*=\s*([0-9.eE+-]+)\s*;' % nm, txt)
         if not m:
             raise core.Undecided('front end: constant %s not found in constants.h' % nm)
         out[nm] = D(sp.Rational(m.group(1)))
+    if not re.search(r'const\s+double\s+kj2kcal\s*=\s*1\s*/\s*kcal2kj\s*;', txt):
+        raise core.Undecided('front end: kj2kcal is no longer defined as 1 / kcal2kj in constants.h')
+    out['kj2kcal'] = D(1 / out['kcal2kj'].v)
     return out
 
 
@@ -67,12 +70,46 @@ def tokens_of(fmt, args):
     return lines
 
 
+class LineSink:
+    """what a FILE* receives: lines of tokens; a line ends at a newline of the format (assumed contract of fprintf)"""
+    def __init__(s): s.lines, s.cur = [], []
+    def fprintf(s, f, fmt, *args):
+        args = list(args)
+        if not isinstance(fmt, str):
+            s.cur.extend(args); s.lines.append(s.cur); s.cur = []      # format built at run time (sprintf): one line holding all arguments
+            return
+        for piece in re.split(r'(\n)', fmt):
+            if piece == '\n':
+                s.lines.append(s.cur); s.cur = []
+                continue
+            for tok in piece.split():
+                for part in re.findall(r'%[-0-9.]*l?[dfisg]|[^%]+', tok):
+                    if part.startswith('%'):
+                        if not args:
+                            raise rvc.Unsupported('fprintf: more conversions than arguments')
+                        s.cur.append(args.pop(0))
+                    else:
+                        s.cur.append(D(sp.Rational(part)) if re.fullmatch(r'-?[0-9.]+', part) else part)
+        if args:
+            raise rvc.Unsupported('fprintf: more arguments than conversions')
+
+
 def ob(obs, oid, fn, clause, ok, detail='', bound=None, wit=None, fns=None):
     o = Ob(oid, fn, clause, 'RVC', 'symbolic execution + exact normal form', (core.BOUNDED if bound else core.PROVED) if ok else core.REFUTED, 0, detail, witness=None if ok else (wit or {'detail': detail[:500]}), bound=bound)
     if fns:
         o['functions'] = fns
     obs.append(o)
     return o
+
+
+def ctor_arg(ex_, inner, k=0):
+    """value of constructor argument k of a declaration's initialiser (looking through cleanups / temporaries)"""
+    n = inner[0]
+    while n.get('kind') != 'CXXConstructExpr':
+        if not n.get('inner'):
+            raise rvc.Unsupported('declaration without a constructor call')
+        n = n['inner'][0]
+    return rvc.rval(ex_.expr(n['inner'][k]))
 
 
 def reader_stream(lines):
@@ -100,9 +137,9 @@ def job_gro_box(seed):
            {'name': 'GROReader::NextFrame', 'file': 'csg/src/libcsg/modules/io/groreader.cc', 'ast_nodes': rvc.node_count(fr['NextFrame'][0])}]
     for approx_zero in (False, True):
         box = Mx.sym('h', 3, 3)
-        out = []
+        sink = LineSink(); out = sink.lines
         conf = Obj(m_BeadCount=lambda: 0, m_HasVel=lambda: False, m_getBox=lambda: box.copy())
-        cb = {'fprintf': lambda f, fmt, *a: out.extend(tokens_of(fmt, a)), 'sprintf': lambda *a: None, 'fflush': lambda *a: None,
+        cb = {'fprintf': sink.fprintf, 'sprintf': lambda *a: None, 'fflush': lambda *a: None,
               'isApproxToConstant': lambda m, v, tol: approx_zero,
               'decl': lambda ex_, vd, ty, inner: (('format built at run time',) if ty.startswith('char[') else NotImplemented)}
         ex = Exec({'conf': conf}, cb, {}, {'__class__': 'GROWriter', 'out_': 'FILE'})
@@ -197,9 +234,9 @@ def job_lammps_box(seed):
                 for j in range(3):
                     if i != j:
                         box.p(i, j, D(0))
-        out = []
+        sink = LineSink(); out = sink.lines
         conf = Obj(m_getBox=lambda: box.copy(), m_getStep=lambda: 7, m_Beads=lambda: [], m_HasVel=lambda: False, m_HasForce=lambda: False)
-        cb = {'fprintf': lambda f, fmt, *a: out.extend(tokens_of(fmt, a)), 'fflush': lambda *a: None, 'global': lambda nm: K[nm]}
+        cb = {'fprintf': sink.fprintf, 'fflush': lambda *a: None, 'global': lambda nm: K[nm]}
         ex = Exec({'conf': conf}, cb, {}, {'__class__': 'LAMMPSDumpWriter', 'out_': 'FILE'})
         try:
             ex.stmt(rvc.body_of(fw['Write'][0]))
@@ -241,6 +278,74 @@ def job_lammps_box(seed):
            wit={'box': 'any box with a non-zero off-diagonal element', 'header': str(header), 'differing': str(bad[:4])})
         if bad:
             replay_lammps(obs[-1], 'box')
+    return obs
+
+
+def job_lammps_atoms(seed):
+    """lammps dump atom lines: what the writer prints for bead k (positions, velocities, forces, with their unit factors) is what the reader stores in bead k"""
+    rvc.reset()
+    fw = rvc.functions(rvc.ast('csg/src/libcsg/modules/io/lammpsdumpwriter.cc', 'LAMMPSDumpWriter::Write'))
+    fr = rvc.functions(rvc.ast('csg/src/libcsg/modules/io/lammpsdumpreader.cc', 'LAMMPSDumpReader::'))
+    if 'Write' not in fw or 'ReadAtoms' not in fr:
+        raise core.Undecided('front end: LAMMPSDumpWriter::Write / LAMMPSDumpReader::ReadAtoms not found')
+    K = constants()
+    obs = []
+    mfs = [{'name': 'LAMMPSDumpWriter::Write', 'file': 'csg/src/libcsg/modules/io/lammpsdumpwriter.cc', 'ast_nodes': rvc.node_count(fw['Write'][0])},
+           {'name': 'LAMMPSDumpReader::ReadAtoms', 'file': 'csg/src/libcsg/modules/io/lammpsdumpreader.cc', 'ast_nodes': rvc.node_count(fr['ReadAtoms'][0])}]
+    NB = 2
+    for hasv, hasf in ((False, False), (True, False), (True, True), (False, True)):
+        box = Mx(3, 3, [[D(sp.Symbol('L%d' % i, positive=True)) if i == j else D(0) for j in range(3)] for i in range(3)])
+        P = [Mx.sym('p%d' % k, 3) for k in range(NB)]; V = [Mx.sym('v%d' % k, 3) for k in range(NB)]; Fo = [Mx.sym('f%d' % k, 3) for k in range(NB)]
+        beads = [Obj(m_getType=lambda: 'A', m_getId=lambda k=k: k, m_getPos=lambda k=k: P[k], m_getVel=lambda k=k: V[k], m_getF=lambda k=k: Fo[k]) for k in range(NB)]
+        sink = LineSink()
+        conf = Obj(m_getBox=lambda: box.copy(), m_getStep=lambda: 7, m_Beads=lambda: beads, m_HasVel=lambda: hasv, m_HasForce=lambda: hasf, m_getBeadTypeId=lambda t: 1)
+        cb = {'fprintf': sink.fprintf, 'fflush': lambda *a: None, 'global': lambda nm: K[nm]}
+        ex = Exec({'conf': conf}, cb, {}, {'__class__': 'LAMMPSDumpWriter', 'out_': 'FILE'})
+        try:
+            ex.stmt(rvc.body_of(fw['Write'][0]))
+        except Ret:
+            pass
+        t = 'v%d.f%d' % (hasv, hasf)
+        idx = [k for k, l in enumerate(sink.lines) if l[:2] == ['ITEM:', 'ATOMS']]
+        ok = len(idx) == 1 and len(sink.lines) == idx[0] + 1 + NB
+        ob(obs, 'C08.lammps.atoms/%s/item' % t, 'LAMMPSDumpWriter::Write', 'one ATOMS item line followed by one line per bead', ok, str(sink.lines[-3:])[:400], bound='%d beads' % NB, fns=mfs)
+        if not ok:
+            continue
+        item = ' '.join(sink.lines[idx[0]])
+        getline, state, pos = reader_stream(sink.lines[idx[0] + 1:])
+        rb = [dict(pos=Mx.sym('op%d' % k, 3), vel=Mx.sym('ov%d' % k, 3), f=Mx.sym('of%d' % k, 3), flags={}) for k in range(NB)]
+        rbeads = [Obj(m_Pos=lambda k=k: rb[k]['pos'], m_Vel=lambda k=k: rb[k]['vel'], m_F=lambda k=k: rb[k]['f'], m_HasPos=lambda v, k=k: rb[k]['flags'].__setitem__('pos', v),
+                      m_HasVel=lambda v, k=k: rb[k]['flags'].__setitem__('vel', v), m_HasF=lambda v, k=k: rb[k]['flags'].__setitem__('f', v)) for k in range(NB)]
+        top = Obj(m_getBead=lambda k: rbeads[rvc._i(k)], m_getBox=lambda: box.copy())
+        def decl(ex_, vd, ty, inner):
+            if ty.endswith('Tokenizer'):
+                v = ctor_arg(ex_, inner)
+                toks = [x for x in v.split(' ') if x] if isinstance(v, str) else list(v)
+                return Obj(m_ToVector=lambda: list(toks), m_begin=lambda: rvc.ListIt(toks, 0), m_end=lambda: rvc.ListIt(toks, len(toks)))
+            return NotImplemented
+        cbr = {'getline': getline, 'eof': lambda f: state['eof'], 'trim': lambda *a: None, 'decl': decl, 'global': lambda nm: K[nm], 'stod': lambda x: D.lift(x),
+               'lexical_cast': lambda x: rvc._i(x) if not isinstance(x, str) else int(x)}
+        exr = Exec({'top': top, 'itemline': item}, cbr, {}, {'__class__': 'LAMMPSDumpReader', 'fl_': 'STREAM', 'fname_': 'FILE', 'topology_': False, 'natoms_': NB})
+        thrown = False
+        try:
+            exr.stmt(rvc.body_of(fr['ReadAtoms'][0]))
+        except Ret:
+            pass
+        except Thrown:
+            thrown = True
+        bad = []
+        for k in range(NB):
+            for nm, src, present in (('pos', P, True), ('vel', V, hasv), ('f', Fo, hasf)):
+                for c in range(3):
+                    got = rb[k][nm].g(c, 0).v
+                    want = src[k].g(c, 0).v if present else sp.Symbol('o%s%d%s' % ({'pos': 'p', 'vel': 'v', 'f': 'f'}[nm], k, 'xyz'[c]), real=True)
+                    if not rvc.nf_zero(got - want):
+                        bad.append((k, nm, c, str(got)))
+            if rb[k]['flags'] != {'pos': True, 'vel': hasv, 'f': hasf}:
+                bad.append((k, 'flags', str(rb[k]['flags'])))
+        ob(obs, 'C08.lammps.atoms/%s/roundtrip' % t, 'LAMMPSDumpWriter::Write + LAMMPSDumpReader::ReadAtoms',
+           'bead k gets back its own position, velocity and force (those the frame carries; the others are left untouched), in the original units, and the presence flags match',
+           not thrown and not bad, 'item line %r; differing: %s' % (item, bad[:4]), bound='%d beads' % NB, fns=mfs, wit={'item': item, 'differing': str(bad[:4])})
     return obs
 
 
@@ -290,7 +395,7 @@ def job_dlpoly_box(seed):
         top = Obj(m_BeadCount=lambda: 0, m_setBox=lambda b, ty=None: got.__setitem__('box', b.copy()), m_SetHasVel=lambda v: None, m_SetHasForce=lambda v: None, m_setTime=lambda v: None, m_setStep=lambda v: None, m_getTime=lambda: D(5) * D(sp.Symbol('dstep')))
         def decl(ex_, vd, ty, inner):
             if 'Tokenizer' in ty:
-                v = rvc.rval(ex_.expr(inner[0]['inner'][0]))
+                v = ctor_arg(ex_, inner)
                 return Obj(m_ToVector=lambda: [(rvc._i(x) if (isinstance(x, D) and x.v.is_Integer) else x) for x in v])
             return NotImplemented
         cbr = {'getline': getline, 'eof': lambda f: state['eof'], 'decl': decl, 'global': lambda nm: K[nm], 'enum': lambda nm: nm, 'ostream_write': lambda *a: None,
@@ -400,7 +505,7 @@ def collect(obs):
 
 
 def run(tier, seed, only=None):
-    jobs = [(job_gro_box, (seed,)), (job_lammps_box, (seed,)), (job_dlpoly_box, (seed,)), (job_count, (seed,))]
+    jobs = [(job_gro_box, (seed,)), (job_lammps_box, (seed,)), (job_dlpoly_box, (seed,)), (job_lammps_atoms, (seed,)), (job_count, (seed,))]
     if only:
         jobs = [j for j in jobs if re.search(only, j[0].__name__)] or jobs
     obs = core.pmap(jobs)
